@@ -243,6 +243,12 @@ func (s *store) Put(key string, value []byte, tags ...storage.Tag) error {
 		if err != nil {
 			return fmt.Errorf("failed to update tag map: %w", err)
 		}
+	} else if key != tagMapKey {
+		// The new entry has no tags: the key must not stay in the tag map under the tags of the entry it replaces.
+		err := s.removeFromTagMap(key)
+		if err != nil {
+			return fmt.Errorf("failed to remove key from tag map: %w", err)
+		}
 	}
 
 	entryBytes, err := json.Marshal(newDBEntry)
@@ -410,6 +416,11 @@ func (s *store) updateTagMap(key string, tags []storage.Tag) error {
 		return fmt.Errorf("failed to get tag map: %w", err)
 	}
 
+	// Put overwrites the tags of an existing entry: drop the key from the tag names it was stored under before.
+	for _, tagNameToKeys := range tagMap {
+		delete(tagNameToKeys, key)
+	}
+
 	for _, tag := range tags {
 		if tagMap[tag.Name] == nil {
 			tagMap[tag.Name] = make(map[string]struct{})
@@ -470,8 +481,18 @@ func (s *store) removeFromTagMap(keyToRemove string) error {
 		return fmt.Errorf("failed to get tag map: %w", err)
 	}
 
+	var found bool
+
 	for _, tagNameToKeys := range tagMap {
-		delete(tagNameToKeys, keyToRemove)
+		if _, ok := tagNameToKeys[keyToRemove]; ok {
+			found = true
+
+			delete(tagNameToKeys, keyToRemove)
+		}
+	}
+
+	if !found {
+		return nil
 	}
 
 	tagMapBytes, err := json.Marshal(tagMap)
